@@ -323,6 +323,10 @@ def analyse(ck, facts, tier, covered, not_covered, primary=True):
         has_eval = any(k in meths for k in ("eval_ref_values", "eval_values"))
         ok = has_eval and not bad
         f0 = (meths.get("eval_ref_values") or meths.get("eval_values") or list(meths.values())[0])[0]
+        if not has_eval and not bad:
+            # the evaluator interface changed (renamed entry points): nothing to decide, not a defect by itself
+            ck.incomplete("E0.instantiate", "%s%s/%s: neither eval_ref_values nor eval_values is instantiated by the driver (interface renamed?)" % (tag, fam, sh))
+            continue
         ck.ob("E0.instantiate", tag + "%s/%s" % (fam, sh), ok,
               ("front-end error: %s:%d %s" % (rel(bad[0]["file"]), bad[0]["line"], bad[0]["msg"])) if bad else
               ("instantiated: " + ",".join(sorted(k for k in meths if k.startswith("eval")))) if has_eval else "no evaluation function instantiated",
@@ -334,7 +338,10 @@ def analyse(ck, facts, tier, covered, not_covered, primary=True):
             trafo_eval.setdefault(("%s<%s>" % (m.group(1), m.group(2)), int(m.group(3))), {}).setdefault(f.name, []).append(f)
     terrs = [e for e in errs if "/kernel/trafo/" in e["file"]]
     for (sh, wd), meths in sorted(trafo_eval.items()):
-        ck.ob("E0.instantiate", tag + "Trafo::Standard/%s/world%d" % (sh, wd), not terrs and "map_point" in meths,
+        if not terrs and "map_point" not in meths:
+            ck.incomplete("E0.instantiate", "%sTrafo::Standard/%s/world%d: map_point is not instantiated by the driver (interface renamed?)" % (tag, sh, wd))
+            continue
+        ck.ob("E0.instantiate", tag + "Trafo::Standard/%s/world%d" % (sh, wd), not terrs,
               "instantiated: " + ",".join(sorted(meths)) if not terrs else "%s:%d %s" % (rel(terrs[0]["file"]), terrs[0]["line"], terrs[0]["msg"]), F("kernel/trafo/standard/evaluator.hpp"), None)
     for e in errs:
         ck.ob("E0.instantiate", tag + "error/%s/%s" % (rel(e["file"]), re.sub(r"\d+", "N", e["msg"])[:80]), False, "%s:%d %s" % (rel(e["file"]), e["line"], e["msg"]), e["file"], e["line"])
@@ -401,7 +408,7 @@ def analyse(ck, facts, tier, covered, not_covered, primary=True):
             if not syms and ints != list(range(len(ints))):
                 problems.append("constant slots are not 0..%d" % (len(ints) - 1))
         else:
-            problems.append("get_num_local_dofs() does not fold to a constant")
+            ck.incomplete("E11.lists-complete", "%s%s/%s: get_num_local_dofs() does not fold to a constant" % (tag, inst, field))
         want = list(itertools.product(range(dim), repeat=order))
         for s in slots:
             have = sorted(idx for (s2, fl, idx) in lst if s2 == s and fl == field)
@@ -527,7 +534,9 @@ def analyse(ck, facts, tier, covered, not_covered, primary=True):
                 nloc = sx.rv(sx.run(meths["get_num_local_dofs"][0])).as_int()
                 for k in range(nloc):
                     idx[k] = sx.num(sx.run(fp, args=[Poly.const(k)]))
-            layout, problems = decode_layout(idx, dim)
+            layout, problems, unknown = decode_layout(idx, dim)
+            if unknown:
+                raise NotClosedForm("index arithmetic not recognised: " + "; ".join(unknown[:2]))
         except NotClosedForm as e:
             ck.incomplete("E2.dof-mapping", "%s%s: %s" % (tag, inst, e))
             continue
@@ -565,6 +574,10 @@ def analyse(ck, facts, tier, covered, not_covered, primary=True):
         problems = []
         node_of = {}
         hit = {}
+        unknown = [slot_str(s) for s in slots if not value_of[s].symbols() <= set(X)]
+        if unknown:
+            ck.incomplete("E11.kronecker", "%s%s: basis functions %s depend on more than the reference point (per-cell coefficients); lattice duality not decidable" % (tag, inst, unknown[:3]))
+            continue
         for s in slots:
             ones, others = [], []
             for q in pts:
@@ -645,8 +658,9 @@ def analyse(ck, facts, tier, covered, not_covered, primary=True):
 def decode_layout(idx, dim):
     """idx: {k: poly} of global indices of local dof k.  -> ([(c,i,j)] per k, problems)"""
     problems = []
+    unknown = []    # shapes the decoder does not understand: analysis-incomplete, never a verdict
     if not idx or sorted(idx) != list(range(len(idx))):
-        return None, ["dof_idx entries written: %s" % sorted(idx)[:8]]
+        return None, [], ["local dof indices written: %s (expected a dense array 0..n-1)" % sorted(idx)[:8]]
     layout = []
     dpc = {}
     offs = {}
@@ -665,21 +679,21 @@ def decode_layout(idx, dim):
                 m = re.search(r"get_index_set<(\d+), (\d+)>\[cell\]\[(\d+)\]$", nm)
                 if m and int(m.group(1)) == dim:
                     if c is not None:
-                        problems.append("dof %d depends on two entities: %s" % (k, v))
+                        unknown.append("dof %d depends on two entities: %s" % (k, v))
                     c, i, coef = int(m.group(2)), int(m.group(3)), cf
                     continue
                 if nm == "cell":
                     if c is not None:
-                        problems.append("dof %d depends on two entities: %s" % (k, v))
+                        unknown.append("dof %d depends on two entities: %s" % (k, v))
                     c, i, coef = dim, 0, cf
                     continue
                 if re.match(r"^N\[\d+\]$", nm):
                     off = off + Poly({mon: cf})
                     continue
-            problems.append("dof %d: unrecognised term in %s" % (k, v))
+            unknown.append("dof %d: unrecognised term in %s" % (k, v))
         if c is None:
-            problems.append("dof %d = %s does not depend on an entity index" % (k, v))
-            return None, problems
+            unknown.append("dof %d = %s does not depend on a recognised entity index" % (k, v))
+            return None, problems, unknown
         if coef.denominator != 1 or coef <= 0 or jconst.denominator != 1 or not (0 <= jconst < coef):
             problems.append("dof %d = %s: ordinal %s not below the entity stride %s" % (k, v, jconst, coef))
         if dpc.setdefault(c, coef) != coef:
@@ -701,15 +715,16 @@ def decode_layout(idx, dim):
             js = sorted(j for c2, i2, j in layout if c2 == c and i2 == i)
             if js != list(range(int(dpc[c]))):
                 problems.append("entity (dim %d, #%d) has ordinals %s, stride %s" % (c, i, js, dpc[c]))
-    return layout, problems
+    return layout, problems, unknown
 
 
 def check_orientation(ck, facts, tag, inst, sh, dim, meths, syms, layout, slot_const):
     """prepare() of an evaluator with orientation-dependent slots; fills slot_const with the slot numbers under
-    the canonical orientation (map(i,j) = j)"""
+    the canonical orientation (map(i,j) = j).  Only definite contradictions are violations; every shape the
+    matcher does not recognise is analysis-incomplete."""
     fps = meths.get("prepare")
     if not fps:
-        ck.ob("E13.l3-orientation", tag + inst, False, "formula lists use %d orientation dependent slots but the evaluator has no prepare()" % len(syms), None, None)
+        ck.incomplete("E13.l3-orientation", "%s%s: the formula lists use %d orientation dependent slots but no prepare() of the evaluator is instantiated (slots defined elsewhere?)" % (tag, inst, len(syms)))
         return False
     fp = fps[0]
     sims = {}
@@ -717,7 +732,7 @@ def check_orientation(ck, facts, tag, inst, sh, dim, meths, syms, layout, slot_c
     def model(sx, n, callee, this_loc, args, fn):
         base = symex.strip_targs(callee)
         if n["k"] in ("Construct", "TempObj") and base == "FEAT::Geometry::Intern::SubIndexMapping::SubIndexMapping":
-            sims[loc_name(this_loc)] = n
+            sims[loc_name(this_loc)] = (n, [loc_name(a) if isinstance(a, Loc) else None for a in args])
             return this_loc
         if base == "FEAT::Geometry::Intern::SubIndexMapping::map" and this_loc is not None and len(args) == 2:
             return Poly.sym("map(%s;%d,%d)" % (loc_name(this_loc), sx.num(args[0]).as_int(), sx.num(args[1]).as_int()))
@@ -730,30 +745,37 @@ def check_orientation(ck, facts, tag, inst, sh, dim, meths, syms, layout, slot_c
         ck.incomplete("E13.l3-orientation", "%s%s: prepare(): %s" % (tag, inst, e))
         return False
     defs = {"#" + loc_name(Loc("this", p)): v for p, v in sx.outputs("this").items()}
-    # the orientation sources
     sim_dim = {}
     problems = []
-    for nm, n in sims.items():
+    unknown = []
+    # the orientation sources: decided on the VALUES handed to the constructor (resolved accessor paths), so that
+    # const locals / reference aliases for the index sets do not matter
+    for nm, (n, argnames) in sims.items():
         m = re.match(r"^FEAT::Geometry::Intern::SubIndexMapping<FEAT::Shape::(\w+<\d>), (\d), 0>$", n.get("ccls", ""))
-        if not m or m.group(1) != sh:
-            problems.append("orientation mapping %s is not a SubIndexMapping<%s,e,0>" % (n.get("ccls"), sh))
+        if not m:
+            unknown.append("orientation object of type %s" % n.get("ccls"))
+            continue
+        if m.group(1) != sh:
+            problems.append("orientation mapping is a %s, the cell shape is %s" % (n.get("ccls"), sh))
             continue
         e = int(m.group(2))
         sim_dim[nm] = e
-        want = {"shape_verts": ("<%d, 0>" % dim, True), "shape_cells": ("<%d, %d>" % (dim, e), True), "cell_verts": ("<%d, 0>" % e, False)}
+        want = {"shape_verts": (dim, 0, True), "shape_cells": (dim, e, True), "cell_verts": (e, 0, False)}
         pn = n.get("pn", [])
-        for role, a in zip(pn, n.get("a", [])):
-            if role not in want:
-                problems.append("unknown constructor parameter %s" % role)
-                continue
-            gets = [x for x in featlib.walk(a) if x.get("k") == "MCall" and x.get("n") == "get_index_set"]
-            by_cell = any(x.get("k") == "MCall" and x.get("n") == "get_cell_index" for x in featlib.walk(a)) and a.get("k") == "OpCall" and a.get("op") == "[]"
-            targs = gets[0].get("cfull", "").rsplit("get_index_set", 1)[-1] if gets else None
-            if len(gets) != 1 or targs != want[role][0] or by_cell != want[role][1]:
-                problems.append("%s is built from %s, expected get_index_set%s%s" % (role, featlib.render(a)[-70:], want[role][0], "[cell]" if want[role][1] else ""))
         if sorted(pn) != sorted(want):
-            problems.append("constructor roles %s" % pn)
-    # every symbolic slot is defined as offset + map(sim_e; i, j)
+            unknown.append("SubIndexMapping constructor parameters %s" % pn)
+            continue
+        for role, an in zip(pn, argnames):
+            mm = re.search(r"get_index_set<(\d+), (\d+)>(\[(.*)\])?$", an or "")
+            if not mm:
+                unknown.append("%s = %s is not an index set of the mesh" % (role, an))
+                continue
+            got = (int(mm.group(1)), int(mm.group(2)), mm.group(3) is not None)
+            if got[2] and "cell_index" not in (mm.group(4) or ""):
+                unknown.append("%s = %s is subscripted by something else than the current cell index" % (role, an))
+                continue
+            if got != want[role]:
+                problems.append("%s is index_set<%d,%d>%s, expected index_set<%d,%d>%s" % (role, got[0], got[1], "[cell]" if got[2] else "", want[role][0], want[role][1], "[cell]" if want[role][2] else ""))
     first_of = {}
     for k, (c, i, j) in enumerate(layout):
         first_of.setdefault((c, i), k)
@@ -763,13 +785,16 @@ def check_orientation(ck, facts, tag, inst, sh, dim, meths, syms, layout, slot_c
     seen = {}
     for s in syms:
         if s not in defs:
-            problems.append("slot index %s is used by the formula lists but never assigned in prepare()" % slot_str(s))
+            unknown.append("slot index %s is used by the formula lists but not assigned in prepare()" % slot_str(s))
             continue
         v = defs[s]
+        if v.is_const():
+            problems.append("%s = %s does not depend on the orientation of the entity" % (slot_str(s), v))
+            continue
         msym = [mon for mon in v.t if mon]
         m = re.match(r"^map\((.*);(\d+),(\d+)\)$", msym[0][0][0]) if len(msym) == 1 and len(msym[0]) == 1 and msym[0][0][1] == 1 and v.t[msym[0]] == 1 else None
         if not m or m.group(1) not in sim_dim:
-            problems.append("%s = %s is not offset + SubIndexMapping::map(i,j)" % (slot_str(s), v))
+            unknown.append("%s = %s is not of the form offset + SubIndexMapping::map(i,j)" % (slot_str(s), v))
             continue
         e, i, j = sim_dim[m.group(1)], int(m.group(2)), int(m.group(3))
         off = v.t.get((), Fraction(0))
@@ -780,12 +805,15 @@ def check_orientation(ck, facts, tag, inst, sh, dim, meths, syms, layout, slot_c
             problems.append("%s and %s are both entity (dim %d, #%d) ordinal %d" % (slot_str(s), slot_str(seen[(e, i, j)]), e, i, j))
         seen[(e, i, j)] = s
         slot_const[s] = int(off) + j
-    # every oriented entity ordinal is covered
-    for e in set(sim_dim.values()):
-        want_n = sum(1 for c, i, j in layout if c == e)
-        have_n = sum(1 for (e2, i, j) in seen if e2 == e)
-        if want_n != have_n:
-            problems.append("%d of %d dofs of the dimension-%d entities are addressed through the orientation mapping" % (have_n, want_n, e))
+    if not unknown:
+        for e in set(sim_dim.values()):
+            want_n = sum(1 for c, i, j in layout if c == e)
+            have_n = sum(1 for (e2, i, j) in seen if e2 == e)
+            if want_n != have_n and not problems:
+                problems.append("%d of %d dofs of the dimension-%d entities are addressed through the orientation mapping" % (have_n, want_n, e))
+    if unknown and not problems:
+        ck.incomplete("E13.l3-orientation", "%s%s: %s" % (tag, inst, "; ".join(unknown[:3])))
+        return False
     ck.ob("E13.l3-orientation", tag + inst, not problems, "; ".join(problems[:3]) if problems else "%d slots = offset(entity) + SubIndexMapping<%s,e,0>::map(i,j), e in %s" % (len(syms), sh, sorted(set(sim_dim.values()))), fp.file, fp.line,
           sample={"slots": len(syms), "example": "%s = %s" % (slot_str(syms[0]), defs.get(syms[0]))})
     return not problems
@@ -860,6 +888,10 @@ def check_trafo(ck, facts, refcell, tag, sh, wd, meths):
                 if A is None:
                     A, C = m.group("A"), m.group("C")
                 ok = (A, C) == (m.group("A"), m.group("C"))
+            if not ok and (not m) and all(("get_vertex_set" not in sname) for sname in got.symbols()):
+                # the coefficients are not expressed through the mesh vertex set: prepare() changed shape
+                ck.incomplete("E11.trafo-vertex-map", "%s: map_point(reference vertex %d)[%d] = %s is not expressed through vertex_set[index_set(cell,.)] (coefficient set-up not recognised)" % (key, k, i, got))
+                continue
             ck.ob("E11.trafo-vertex-map", key, ok, "map_point(reference vertex %d = %s)[%d] = %s, expected the coordinate %d of mesh vertex index_set<%d,0>(cell,%d)" % (k, tuple(map(str, rv)), i, got, i, dim, k) if not ok else "= %s" % nm, fm.file, fm.line)
 
 
